@@ -281,7 +281,9 @@ def batches(rng, tier):
     yield Batch("iterator-ranges", ops, exhaustive=True, note="every sub-range [i, j) of vectors / lists up to length 6; adapt_range of whole containers")
 
     # 10. math::int_range_count
-    yield Batch("static-int-range-count", [f"mirc {n}" for n in (0, 1, 2, 3, 5, 8, 16)], exhaustive=True, note="math::int_range_count<N>")
+    yield Batch("static-int-range-count", [f"mirc {n}" for n in (0, 1, 2, 3, 5, 8, 16)] +
+                [f"mir {a} {b}" for (a, b) in ((0, 0), (0, 3), (1, 2), (2, 5), (3, 3), (5, 16), (15, 16))], exhaustive=True,
+                note="math::int_range_count<N>, math::int_range<A, B>")
 
     # 11. int_iterator used directly: == != (all pairs, same object), *, it++, member / free / self swap
     for ty in T8:
